@@ -11,6 +11,8 @@ Clauses (one `Viol` constructor each):
   * `fifo`      an executed command is not the oldest unconsumed input of its user (a complete line in line mode,
                 a non-empty prefix in single-char mode) - order, loss and duplication
   * `idleWait`  backend asked the poller to block although a connected user already had a complete command buffered
+  * `overtaken` a user is served a second time while another user, who had a complete command at the top of an
+                iteration, still waits for his first service (only possible across iterations aborted by an error)
   * `efun`      a command() call on a live object was not executed at once (command() is not turn-limited:
                 `ecmd` events never count for `twice`)
   * `outside`, `crash`, `malformed`  robustness of the trace itself
@@ -29,6 +31,7 @@ inductive Viol where
   | starved (u n : Nat)
   | fifo (u : Nat) (text : List Char)
   | idleWait (n u : Nat)
+  | overtaken (u v n : Nat)
   | efun (target : Nat) (text : List Char)
   | outside (u : Nat)
   | crash (what : String)
@@ -187,8 +190,61 @@ def judgeStep (s : JState) (e : Ev) : JState :=
 
 def judgeLive (trace : List Ev) : List Viol := (trace.foldl judgeStep {}).bad.reverse
 
+/-! ### clause oracle 5: round robin survives aborted iterations -/
+
+structure OU where
+  connected : Bool := false
+  clientOpen : Bool := true
+  pending : List Char := []      -- sent and not yet consumed (before or after the last `begin`)
+  charMode : Bool := false
+  waiting : Bool := false        -- had a complete command at a `begin` and has not been served since
+  passed : List Nat := []        -- users served while this one has been waiting
+  deriving Repr, BEq, DecidableEq, Inhabited
+
+structure OState where
+  us : AMap OU := []
+  ids : List Nat := []
+  cyc : Nat := 0
+  bad : List Viol := []
+
+def oLive (j : OU) : Bool := j.connected && j.clientOpen
+
+/-- clause `overtaken`: nobody is served a second time while somebody else, who had a complete command at the top of
+    an iteration, is still waiting for his first service.  In a completed iteration this follows from `starved` and
+    `twice`; the clause speaks about iterations that an uncaught error aborts: the restarted loop must go on with the
+    users that were still waiting (the cursor was stepped past the served ones), not start over with the same ones. -/
+def orderStep (s : OState) (e : Ev) : OState :=
+  match e with
+  | .logon u => { s with us := upd s.us u { connected := true }, ids := u :: s.ids }
+  | .send u d => { s with us := upd s.us u { s.us.get u with pending := (s.us.get u).pending ++ d } }
+  | .close u => { s with us := upd s.us u { s.us.get u with clientOpen := false } }
+  | .kick _ t true => { s with us := upd s.us t { s.us.get t with connected := false } }
+  | .drop _ t true => { s with us := upd s.us t { s.us.get t with connected := false } }
+  | .gc u true => { s with us := upd s.us u { s.us.get u with charMode := true } }
+  | .begin n =>
+    let us := s.ids.foldl (fun m u =>
+      let j := s.us.get u
+      if oLive j && complete j.charMode j.pending then
+        (if j.waiting then m else upd m u { j with waiting := true, passed := [] })
+      else upd m u { j with waiting := false, passed := [] }) s.us
+    { s with us := us, cyc := n }
+  | .cmd u text =>
+    let victims := s.ids.filter (fun v => v != u && (s.us.get v).waiting && oLive (s.us.get v) && (s.us.get v).passed.contains u)
+    let us1 := s.ids.foldl (fun m v =>
+      let j := s.us.get v
+      if v == u then
+        upd m v { j with pending := (consume j.charMode j.pending text).getD j.pending, charMode := false,
+                         waiting := false, passed := [] }
+      else if j.waiting then upd m v { j with passed := u :: j.passed } else m) s.us
+    { s with us := us1, bad := victims.reverse.map (fun v => Viol.overtaken u v s.cyc) ++ s.bad }
+  | .endc _ _ _ =>   -- a completed iteration owes nothing any more (clause `starved` has judged it)
+    { s with us := s.ids.foldl (fun m u => upd m u { s.us.get u with waiting := false, passed := [] }) s.us }
+  | _ => s
+
+def judgeOrder (trace : List Ev) : List Viol := (trace.foldl orderStep {}).bad.reverse
+
 /-- violations on a trace (per clause oracle, oldest first inside each); `[]` = the property held -/
 def judgeEv (trace : List Ev) : List Viol :=
-  judgeStruct trace ++ judgeEfun trace ++ judgeFifo trace ++ judgeLive trace
+  judgeStruct trace ++ judgeEfun trace ++ judgeFifo trace ++ judgeLive trace ++ judgeOrder trace
 
 end NV.C12
